@@ -432,16 +432,18 @@ theorem location_is_root_description (k : Consts) (cfg : Cfg) (target : Str) (t 
     destination; every requester — however many searches it sends, also while answers to it are
     pending — receives as a multiset exactly what its searches prescribe, distributable over their
     MX windows; the announcements are the table round-robin, not ceasing, none after the stop; the byebyes are the table; every USN begins with the described device's UDN;
-    every message is accepted by the listener model as that device at the description URL. -/
+    every message is accepted by the listener model as that device at the description URL — for
+    EVERY configuration: no hypothesis on the description URL (when the listener refuses it by design
+    the listener clause of the judge is void and `listener_refuses` says what happens instead). -/
 theorem c13_ok {k : Consts} (hk : constsOk k = true) {t : DevTree} (hw : wfTree t = true) (cfg : Cfg)
-    (hl : validLocation cfg.location = true) (target : Str) (searches : List SearchIn) (ann : Option AnnIn) :
+    (target : Str) (searches : List SearchIn) (ann : Option AnnIn) :
     ok (runCase k cfg target t searches ann) = true := by
   have kk := ConstsOk.of_bool hk
   have w := WF.of_wfTree hw
   unfold ok
   rw [Bool.and_eq_true, Bool.and_eq_true]
-  exact ⟨⟨okResponses_run kk w cfg hl target searches ann, okAlives_run cfg target kk w hl searches ann⟩,
-    okByebyes_run cfg target w hl searches ann⟩
+  exact ⟨⟨okResponses_run kk w cfg target searches ann, okAlives_run cfg target kk w searches ann⟩,
+    okByebyes_run cfg target w searches ann⟩
 
 /-- **what an accepting verdict means** (judge soundness, declarative form): if `ok c` holds for ANY
     observation `c` (implementation or model) then
@@ -520,9 +522,9 @@ theorem ok_sound (c : CaseObs) (h : ok c = true) :
 
 /-- C13 for the constants `server.py` has now -/
 theorem c13_ok_gen {t : DevTree} (hw : wfTree t = true) (cfg : Cfg)
-    (hl : validLocation cfg.location = true) (target : Str) (searches : List SearchIn) (ann : Option AnnIn) :
+    (target : Str) (searches : List SearchIn) (ann : Option AnnIn) :
     ok (runCase genConsts cfg target t searches ann) = true :=
-  c13_ok gen_consts_ok hw cfg hl target searches ann
+  c13_ok gen_consts_ok hw cfg target searches ann
 
 /-! ### non-vacuity -/
 
